@@ -18,9 +18,11 @@ static void drain_and_check(TransitEventBuffer& b)
 {
   // the buffer must hold exactly the ghost sequence, in order
   VASSERT(b.size() == g_tail - g_head);
+  VASSERT(b.empty() == (g_head == g_tail));          // empty() and size() agree (a full ring is not empty)
   for (uint32_t i = 0; i < 2 * CAP + 2; i++)
   {
     TransitEvent* f = b.front();
+    VASSERT((f == nullptr) == b.empty());
     if (!f) break;
     VASSERT(g_head < g_tail);
     if (g_head < g_tail) VASSERT(f->timestamp == g_ids[g_head]);
